@@ -1075,6 +1075,8 @@ def sort_index_for_order(
     else:
         # depth is 1
         v = cfs if cfs_is_array else cfs.values
+        if v.ndim == 2: # a 2D array of one column
+            v = v[NULL_SLICE, 0]
         order = np.argsort(v, kind=kind)
 
     if not ascending:
